@@ -59,6 +59,8 @@ def lib_flags():
             'props_check': '_check_name_unique' in src(Node.set_properties),
             'link_cp_only': 'isinstance(i, Interface)' in src(Topology.add_link),
             'disc_peering': 'peering port' in src(NetworkService.disconnect_interface),
+            'parent_first': (lambda s_: 0 <= s_.find('get_node_properties(node_id=parent_node_id)') < s_.find('self.add_node('))(
+                src(ABCPropertyGraph.add_interface_sliver)),
         }
     return _FLAGS['f']
 
@@ -232,7 +234,7 @@ class Histories(Stream):
         fl = lib_flags()
         flags = 'mkFlags ' + ' '.join(cbool(fl[k]) for k in (
             'rename_check', 'link_refuse', 'skip_gone', 'connect_names', 'comp_precheck', 'connect_undo', 'peer_checks',
-            'props_check', 'link_cp_only', 'disc_peering'))
+            'props_check', 'link_cp_only', 'disc_peering', 'parent_first'))
         return '((%s, %s), %s,\n   fun s => %s)' % (cbool(case['flavour'] == 'sub'), flags, tb, body)
 
     # ---------------------------------------------------------------------------- independent oracle
@@ -334,7 +336,7 @@ class C07(Check):
         'Coq 8.16.1 kernel (coqc), vm_compute for the correspondence evaluation; no native_compute',
         'translator/gen_rules.py + translator/pyast.py (rules JSON, enum classes, component catalogue, NAME_REGEX, ViewOnlyDict -> Gen/Rules.v), fail-closed',
         'harness/c07.py, topo7_driver.py, topo7_gen.py, topo7_oracle.py + harness/common.py (history generation, fresh-handle resolution through the views, snapshot of storage.extract_graph, string table, cases.v writer)',
-        'ten behaviour flags read off the source of the library under test (lib_flags: repairs C07-3..10, C09-6, C09-7 present or not)',
+        'eleven behaviour flags read off the source of the library under test (lib_flags: repairs C07-3..10, C09-6, C09-7, a4fc126 present or not)',
         'modelled not verified: networkx Graph (one undirected edge per pair, remove_node drops incident edges), networkx_query search_nodes as a filter, dict insertion/overwrite, uuid4 (replaced by a deterministic source in the harness process), re.fullmatch of the NAME_REGEX character classes on ASCII names',
     ]
     assumptions = [
@@ -408,7 +410,7 @@ WITNESSES = {
     'C07_disconnect_peering_port_refuted': ('disc_peering', {'flavour': 'exp', 'ops': [
         [1, 'add_ns', 'sA', 'a', 'L2Bridge', []], [2, 'add_ns', 'sB', 'b', 'L2Bridge', []], [3, 'peer', 'a', 'b'],
         [4, 'disconnect', 'a', 'g3x0']]}),
-    'C07_stale_add_interface_refuted': (None, {'flavour': 'exp', 'ops': [
+    'C07_stale_add_interface_refuted': ('parent_first', {'flavour': 'exp', 'ops': [
         [1, 'add_ns', 's1', 'a', 'L2Bridge', []], [2, 'remove_ns', 's1'], [3, 'stale_add_iface', 'a', 'p1', 'x', 'TrunkPort']]}),
     'C07_set_properties_name_refuted': ('props_check', {'flavour': 'exp', 'ops': [
         [1, 'add_node', 'n1', 'a', 'S1', 'VM'], [2, 'add_node', 'n2', 'b', 'S1', 'VM'], [3, 'set_prop', ['node', 'b'], 'names', 'n1']]}),
